@@ -140,22 +140,25 @@ class CheckC16(core.Check):
         lc = c.conc(thr, ticks=True)
         # (4) a third identical session (F, G) whose very FIRST use of its transport keys is concurrent
         # (lazily initialised per-key state would be raced here); expected values are those of A/B (same keys)
-        sessions.add_pair(c, parsed, keys, res=(be, be), rng=("script:%d" % seed, "script:%d" % (seed + 1)), rec=("-", "-"), ids=("F", "G"))
-        sessions.add_handshake(c, parsed, ["-"] * parsed.nmsgs, ids=("F", "G"), prefix="hF", flags=("q",))
-        sessions.add_convert(c, ids=("F", "G"), stateless=True)
-        thr2 = []
-        for t in range(min(nthr, 8)):
-            ops = []
-            for i in range(3 if small else 12):
-                pd, n, ln, sd = rnd.choice(pool)
-                if rnd.random() < 0.5:
-                    ops.append("w,%s,%d,%d,%s" % ("F" if pd == 0 else "G", n, ln, sd))
-                else:
-                    n2 = rnd.randrange(T)
-                    d2 = rnd.choice(dirs)
-                    ops.append("r,%s,%d,tw%d_%d,%d" % ("G" if d2 == 0 else "F", n2, d2, n2, 7 + n2))
-            thr2.append(ops)
-        lc2 = c.conc(thr2, ticks=True)
+        lc2 = []
+        for rep in range(1 if small else 4):
+            F, G = "F%d" % rep, "G%d" % rep
+            sessions.add_pair(c, parsed, keys, res=(be, be), rng=("script:%d" % seed, "script:%d" % (seed + 1)), rec=("-", "-"), ids=(F, G))
+            sessions.add_handshake(c, parsed, ["-"] * parsed.nmsgs, ids=(F, G), prefix="h" + F, flags=("q",))
+            sessions.add_convert(c, ids=(F, G), stateless=True)
+            thr2 = []
+            for t in range(min(nthr, 8)):
+                ops = []
+                for i in range(3 if small else 6):
+                    pd, n, ln, sd = rnd.choice(pool)
+                    if rnd.random() < 0.5:
+                        ops.append("w,%s,%d,%d,%s" % (F if pd == 0 else G, n, ln, sd))
+                    else:
+                        n2 = rnd.randrange(T)
+                        d2 = rnd.choice(dirs)
+                        ops.append("r,%s,%d,tw%d_%d,%d" % (G if d2 == 0 else F, n2, d2, n2, 7 + n2))
+                thr2.append(ops)
+            lc2.append(c.conc(thr2, ticks=True))
         c.meta.update({"twin": twin, "seq": seq, "conc": lc, "conc2": lc2, "T": T})
         c.info = {"key": (ci, be, pat), "cipher": ci, "oneway": parsed.oneway, "nthr": nthr}
         return c
@@ -234,13 +237,13 @@ class CheckC16(core.Check):
             ooo += 1
         # concurrent blocks
         ce = by.get(str(case.meta["conc"]))
-        ce2 = by.get(str(case.meta.get("conc2", -1)))
+        ce2s = [by.get(str(l)) for l in case.meta.get("conc2", [])]
         if ce is None:
             r.inconclusive.append("no conc event in case %s" % case.id)
             return r
         order = []
         nconc = 0
-        for kind, sub, kv in list(ce.subs) + (list(ce2.subs) if ce2 is not None else []):
+        for kind, sub, kv in list(ce.subs) + [x for ce2 in ce2s if ce2 is not None for x in ce2.subs]:
             if kind != "t":
                 continue
             kv = dict(kv)
@@ -253,7 +256,7 @@ class CheckC16(core.Check):
             order.append((int(kv.get("t1", "0")), kv["thr"]))
             if op[0] == "w":
                 _, w, n, ln, sd = op
-                d = 0 if w in ("A", "F") else 1
+                d = 0 if w[0] in ("A", "F") else 1
                 exp = ref.get((d, int(n), sd, int(ln)))
                 if exp is None:
                     r.inconclusive.append("case %s: no sequential reference for %s" % (case.id, kv["op"]))
@@ -270,7 +273,7 @@ class CheckC16(core.Check):
                     return r
             else:
                 _, w, rp, n, ln, sd = op
-                d = 0 if w in ("A", "F") else 1
+                d = 0 if w[0] in ("A", "F") else 1
                 pay = gen_bytes(sd, int(ln))
                 exp = prims.aead_encrypt(ci, ks[d], int(n), b"", pay)
                 if (not nonconf and kv.get("outd") != dig(exp)) or not res.startswith("ok") or not kv.get("rres", "").startswith("ok") or kv.get("routd") != dig(pay):
